@@ -229,6 +229,8 @@ UNITS = {
             'penman.graph:Graph.variables', 'penman.graph:Graph.top.setter',
             'penman.graph:Graph._filter_triples', 'penman.graph:Graph.instances',
             'penman.graph:Graph.edges', 'penman.graph:Graph.attributes',
+            'penman.graph:Graph.__isub__', 'penman.graph:Graph.__ior__', 'penman.graph:Graph.__or__',
+            'penman.graph:Graph.__sub__', 'penman.graph:Graph.reentrancies',
         ],
         'lemmas': [],
         'level': 'other',
@@ -239,7 +241,8 @@ UNITS = {
             'penman.model:Model.invert_role', 'penman.model:Model.invert',
             'penman.model:Model.deinvert', 'penman.models.noop:NoOpModel.deinvert',
             'penman.model:Model._canonicalize_inversion', 'penman.model:Model.canonicalize_role',
-            'penman.model:Model.canonicalize',
+            'penman.model:Model.canonicalize', 'penman.transform:_canonicalize_node',
+            'penman.transform:canonicalize_roles',
         ],
         'lemmas': ['canonicalize_role_adds_colon', 'canonicalize_role_idempotent', 'invert_role_involution',
                    'deinvert_laws'],
@@ -248,7 +251,9 @@ UNITS = {
                        'is_role_inverted, invert_role, invert, deinvert (incl. the no-op override), '
                        '_canonicalize_inversion (parity, canonical result, colon kept, termination), '
                        'canonicalize_role, canonicalize, and the lemmas idempotence (outside N6), involution/flip '
-                       '(outside N7), deinvert laws.  The tree clause (canonicalize_roles) is decided by the '
+                       '(outside N7), deinvert laws.  The tree clause: canonicalize_roles / _canonicalize_node return a tree '
+                       'of the same shape, variables, targets and metadata with every role canonicalised (alignment '
+                       'suffix kept) -- proved; that this agrees with canonicalising the reading is decided by the '
                        'bounded stand-in.',
     },
 }
